@@ -1,3 +1,5 @@
+pub mod c03;
+pub mod c04;
 pub mod c16;
 pub mod c17;
 pub mod util;
@@ -6,6 +8,8 @@ use vcore::run::{parse_args, run, CheckFn};
 
 pub fn lookup(prop: &str) -> Option<CheckFn> {
     match prop {
+        "C03" => Some(c03::check),
+        "C04" => Some(c04::check),
         "C16" => Some(c16::check),
         "C17" => Some(c17::check),
         _ => None,
